@@ -306,6 +306,21 @@ pub fn run_c09(ctx: &Ctx) -> i32 {
         });
         mint_amounts.push(None);
     }
+    // several bank messages in one transaction (execute_multi): all of them or none - a refused
+    // later message takes the earlier transfers and burns back
+    for from in &accounts[..2] {
+        let send = |to: &String, a: u128| Msg::BankSend { to: Target::Addr(to.clone()), coins: vec![c("x", a)] };
+        for msgs in [
+            vec![send(&accounts[1], 1), send(&accounts[2], 1)],
+            vec![send(&accounts[2], 1), send(&accounts[0], 2)],
+            vec![Msg::BankBurn { coins: vec![c("x", 1)] }, send(&accounts[2], 2)],
+            vec![send(&accounts[2], 1), Msg::BankBurn { coins: vec![c("x", 0)] }],
+            vec![send(&accounts[0], 1), send(&accounts[1], 1), Msg::BankBurn { coins: vec![c("y", 1)] }],
+        ] {
+            alphabet.push(Program { entry: Entry::Multi { sender: from.clone(), msgs }, root: 0, nodes: vec![] });
+            mint_amounts.push(None);
+        }
+    }
     let _ = denoms;
     let enabled: EnabledFn = Arc::new(move |s: &StartState, oi: usize| -> bool {
         match &mint_amounts[oi] {
